@@ -21,6 +21,18 @@ from vcheck.val import Exc, cbool, from_jsonable, jsonable, zlit, zopt, zstr
 PROP = "C01"
 COQ_TARGETS = ["theories/Model/ViewRun.vo"]
 IMPL = "c01_impl.py"
+MAX_LOCALISE = 5
+_SEEN: set = set()
+
+
+def first_time(c) -> bool:
+    """distinct_nontrivial counts DISTINCT cases: a repeated random case is not counted twice"""
+    k = json.dumps({x: y for x, y in c.items() if x not in ("block", "want_states", "list_methods", "variant", "detail")}, sort_keys=True)
+    if k in _SEEN:
+        return False
+    _SEEN.add(k)
+    return True
+
 
 VALS8 = [None] + list(range(-8, 9))
 STEPS3 = [None, 1, 2, 3, -1, -2, -3]
@@ -62,7 +74,8 @@ def coq_case(c, detail=False):
     if k == "kctor":
         return f"KCtor {d} {zlit(c['n'])} {zlit(c['off'])} {olist(c['avals'])} {olist(c['bvals'])} {olist(c['cvals'])}"
     if k == "schain":
-        return (f"SChain {d} {'OldStyle' if c['impl'] == 'old' else 'NewStyle'} {KIND[c['mt']]} {zstr(c['p'])} {zlit(c['off'])} ["
+        variant = c.get("variant") or ("OldStyle" if c["impl"] == "old" else "NewStyle")
+        return (f"SChain {d} {variant} {KIND[c['mt']]} {zstr(c['p'])} {zlit(c['off'])} ["
                 + ";".join(coq_sop(o) for o in c["ops"]) + "]")
     if k == "comptable":
         return f"CompTable {KIND[c['mt']]} {zstr(c['chars'])}"
@@ -299,6 +312,7 @@ def oracle_speaks(c, desc):
 
 
 def compare(rep, cases, impl, model, stats, disagreements):
+    pending = []
     for c, ir, mr in zip(cases, impl, model):
         blk = c["block"]
         st = stats.setdefault(blk, dict(cases=0, observations=0, nontrivial=0))
@@ -308,7 +322,8 @@ def compare(rep, cases, impl, model, stats, disagreements):
                           broken="the implementation runner itself failed on this case"))
             continue
         st["observations"] += ir.get("n", 0)
-        st["nontrivial"] += ir.get("nontrivial", 0)
+        if first_time(c):
+            st["nontrivial"] += ir.get("nontrivial", 0)
         for b in ir.get("bad", []):
             small = {k: v for k, v in c.items() if k not in ("avals", "bvals", "cvals", "want_states")}
             rep.violation(b["key"], dict(case=small, finding=b, expected_by_spec=b.get("expected_str", b.get("expected")),
@@ -321,9 +336,26 @@ def compare(rep, cases, impl, model, stats, disagreements):
                     disagreements.append(dict(key=f"comp:{c['mt']}:{which}", case=c, observed_impl=got, model_output=mr))
             continue
         if ir["digest"] != mr:
+            if c["kind"] == "schain" and not c.get("variant"):
+                pending.append((c, ir))       # may follow the repaired variant of the model (Model.View.Fixed)
+                continue
+            if len(disagreements) >= MAX_LOCALISE:
+                # enough localised examples: only count the rest (each localisation costs an interpreter and a coqc run)
+                disagreements.append(dict(key=f"{c.get('cls') or c.get('impl')}:{c['kind']}:not-localised", block=blk))
+                continue
             desc = localise(c)
             if not ir.get("bad") or oracle_speaks(c, desc):
                 disagreements.append(desc)
+    if pending:
+        fixed = run_model([dict(c, variant="Fixed") for c, _ in pending])
+        for (c, ir), mf in zip(pending, fixed):
+            if ir["digest"] == mf:
+                stats.setdefault("schain", dict(cases=0, observations=0, nontrivial=0)).setdefault("follow_fixed_variant", 0)
+                stats["schain"]["follow_fixed_variant"] += 1
+            elif len(disagreements) >= MAX_LOCALISE:
+                disagreements.append(dict(key=f"{c['impl']}:schain:not-localised", block=c["block"]))
+            else:
+                disagreements.append(localise(c))
 
 
 def check_methods(rep, cases, impl, stats):
@@ -336,7 +368,8 @@ def check_methods(rep, cases, impl, stats):
             rep.violation(f"runner:methods:{c['impl']}", dict(case=c, observed_impl=ir, broken="the implementation runner itself failed"))
             continue
         st["observations"] += ir["n_methods"]
-        st["nontrivial"] += ir["nontrivial"]
+        if first_time(c):
+            st["nontrivial"] += ir["nontrivial"]
         skipped |= set(ir["skipped"])
         if ir.get("methods") and c["mt"] == "dna":
             listed = (listed or {})
@@ -352,6 +385,7 @@ def check_methods(rep, cases, impl, stats):
 
 def run(tier: str, seed: int) -> int:
     rep = core.Report(PROP, tier, seed)
+    _SEEN.clear()
     rng = random.Random(seed * 7919 + 1)
     pr = core.proof_stage(PROP, COQ_TARGETS)
     core.proof_coverage(rep, pr, "make theories/Properties/C01.vo && coqc gen/assum_C01.v (Print Assumptions)", [
@@ -359,6 +393,9 @@ def run(tier: str, seed: int) -> int:
         "the IUPAC complement table Model.View.comp (compared character by character with both moltype implementations in every run)",
         "methods other than str/len/iter/getitem/rc/to_rna/to_dna/copy/parent_coordinates are not modelled: compared between the "
         "view-backed sequence and make_seq(str(view)) on sampled inputs",
+        "sequence chains: the implementation may follow its pinned model variant (Model.View.OldStyle / NewStyle, for which "
+        "to_rna_old_refuted / copy_new_refuted are proved) or the repaired one (Model.View.Fixed, for which chain_spec holds on all "
+        "operations); violations are decided by the plain-string oracle alone",
     ])
     rep.assumptions += ["step != 0 for every slice (Python raises ValueError; the views' own step-0 behaviour is compared model-vs-implementation only)",
                         "sequence characters are upper-case letters of the moltype's alphabet (make_seq upper-cases / validates)"]
@@ -370,9 +407,9 @@ def run(tier: str, seed: int) -> int:
 
     # ---- phase 1
     d1 = lattice_cases(tier)
-    n_k = (400 if tier == "quick" else 6000) * mult
-    n_s = (500 if tier == "quick" else 8000) * mult
-    n_m = (160 if tier == "quick" else 2500) * mult
+    n_k = (400 if tier == "quick" else 10000) * mult
+    n_s = (500 if tier == "quick" else 14000) * mult
+    n_m = (160 if tier == "quick" else 4000) * mult
     kchains = [rand_kchain(rng) for _ in range(n_k)]
     schains = corpus_schains() + [rand_schain(rng) for _ in range(n_s)]
     methods = corpus_methods() + [rand_methods(rng, force_rev=(i % 3 == 0)) for i in range(n_m)]
@@ -425,8 +462,14 @@ def run(tier: str, seed: int) -> int:
         partial=[
             "every public read-only method other than str/len/iter/getitem/rc/to_rna/to_dna/copy/parent_coordinates is compared "
             "(view-backed vs fresh sequence) on sampled inputs, not proved",
-            "the old-style Sequence.to_moltype clause of the chain theorem is refuted (chain_spec_old_refuted); it holds for chains "
-            "without ToRna/ToDna on a reversed view",
+            "absolute_position / relative_position: only the inverse law on displayed indices is proved (abs_rel_inverse); the values for "
+            "include_boundary / stop flags and out-of-range arguments are compared model-vs-implementation in the kernel chain block",
+            "seqid / name / info propagation: compared (has_id flag), not proved",
+            "the pinned old-style Sequence.to_moltype and the pinned new-style Sequence.copy with an annotation offset violate the "
+            "chain statement (theorems to_rna_old_refuted, copy_new_refuted); chain_spec is proved for the repaired variant "
+            "(Model.View.Fixed) on all operations and for the pinned variants on the remaining operations",
+            "a SeqDataView constructed directly with offset != 0 (not reachable through the library) is compared "
+            "model-vs-implementation only",
         ],
     )
     dis = disagreements[:5]
@@ -456,11 +499,16 @@ def replay(path: str) -> int:
     impl = core.run_impl_lines(IMPL, [c])[0]
     print("case  :", json.dumps(c))
     print("impl  :", json.dumps(impl)[:3000])
-    bad = isinstance(impl, dict) and bool(impl.get("bad"))
+    found = (impl.get("bad") or []) if isinstance(impl, dict) else []
+    key = d.get("key")
+    same_kind = [b for b in found if b.get("key") == key]
+    if same_kind or (key and any("key" in b for b in found) and not str(key).startswith(("correspondence", "runner"))):
+        found = same_kind          # other findings on the same input belong to other replays
+    bad = bool(found)
     if not bad and c["kind"] != "methods" and "model_output" in d:
         model = jsonable(run_model([c], detail=True)[0])
         print("model :", json.dumps(model)[:3000])
         bad = impl.get("full") != model
-    print("oracle:", json.dumps(impl.get("bad") if isinstance(impl, dict) else None)[:3000])
+    print("oracle:", json.dumps(found)[:3000])
     print("REPRODUCED" if bad else "not reproduced")
     return 1 if bad else 0
